@@ -9,15 +9,21 @@ use crate::json::J;
 use crate::model::*;
 use crate::rng::Rng;
 
-pub const RULE: &str = "case = (DNA matrix, sequence, threshold, block size, arm, k): a fresh scanner, k calls to next() (k in {0,1,2,5,all}; consumed hits recorded), then max(). Inputs as C02 plus near-tie workloads (few-valued matrices on long sequences, wide matrices with fractional entries where 8-bit rounding reorders near-equal positions). Oracle over the f64 model: remaining = hits(t) minus consumed; None is required iff nothing remains (don't-care when the only remaining positions are within the summation bound of t); otherwise the returned position must be valid, unconsumed, carry its exact score, meet the threshold and score no less than every remaining position (any maximal position accepted). Checking every (block size, k) against the same model implies independence of both. Non-trivial = a hit remains; distinct = distinct (matrix, sequence, t, block, arm, k).";
+pub const RULE: &str = "case = (DNA matrix, sequence, threshold, block size, arm, k): a fresh scanner, k calls to next() (k in {0,1,2,5,all}; consumed hits recorded), then max(). Inputs as C02 plus near-tie workloads (few-valued matrices on long sequences, wide matrices with fractional entries where 8-bit rounding reorders near-equal positions). Oracle over the f64 model: remaining = hits(t) minus consumed; None is required iff nothing remains (don't-care when the only remaining positions are within the summation bound of t); otherwise the returned position must be valid, unconsumed, carry its exact score, meet the threshold and score no less than every remaining position (any maximal position accepted). Checking every (block size, k) against the same model implies independence of both. In addition every case with L >= M drives two reconfiguration histories finished by max(): next() calls interleaved with threshold() and block_size(); with the verif-hooks row log the candidates of max() are exactly the buffered hits (found by a scored block, not handed out, still meeting the current threshold) plus the positions of rows not scored yet that meet the current threshold. Non-trivial = a hit remains; distinct = distinct (matrix, sequence, t, block, arm, k).";
 
 pub const REQUIRED: &[&str] = &[
     "arm.dispatch[generic]", "arm.dispatch[sse2]", "arm.dispatch[avx2]", "arm.dispatch[auto]", "class.none_expected",
     "class.some_expected", "class.k>0", "class.k=all", "class.near_ties", "class.blocks>1", "class.L<M",
     "class.first_candidate_below_threshold", "class.threshold_below_jth_best", "dispatch_forced.generic", "dispatch_forced.sse2", "dispatch_forced.avx2",
+    "class.history", "class.history.threshold_lowered", "class.history.threshold_raised",
+    "class.history.block_size_changed_after_blocks_scored", "class.history.hits_yielded",
 ];
 
 fn max_case(case: u64, rng: &mut Rng, rep: &mut Report) {
+    max_case_inner(case, rng, rep);
+}
+
+fn max_case_inner(case: u64, rng: &mut Rng, rep: &mut Report) {
     let near = rng.chance(0.45);
     let m = if near { rng.range(8, 33) } else { *rng.pick(&SCAN_WIDTHS) };
     let b_hint = *rng.pick(&[1usize, 2, 3, 5, 8, 16, 31, 32, 33, 64]);
@@ -180,6 +186,13 @@ fn max_case(case: u64, rng: &mut Rng, rep: &mut Report) {
                     Some((p, s)) => J::Arr(vec![J::u(p), J::f(s as f64)]),
                 })
         });
+    }
+    // reconfiguration histories finished by max(): setters called between next() calls
+    if inp.l >= inp.m {
+        for h in 0..2 {
+            let arm = DISP_ARMS[((case as usize) + h) % 4];
+            crate::scanhist::history_case(case, rng, rep, &inp, arm, crate::scanhist::Finish::Max, "c03", None);
+        }
     }
 }
 
